@@ -460,6 +460,66 @@ Proof.
   intros t i. rewrite Hws, <- Hspec, Hp. apply crash_restart_converges; auto.
 Qed.
 
+(* what syncJob leaves alone on the way (PodGroup known to the lister) *)
+Lemma sync_job_keeps : forall w u F w1 e wr,
+  sync_job w u F = (w1, e, wr) -> v_pg w <> None ->
+  c_wdel (v_ctl w1) = c_wdel (v_ctl w) /\ c_queue (v_ctl w1) = c_queue (v_ctl w) /\ w_pg w1 = w_pg w.
+Proof.
+  intros w u F w1 e wr H Hpg. unfold sync_job, sync_job_gen in H.
+  assert (E : forall x, v_pg x = v_pg w -> ensure_pg x = x).
+  { intros x Hx. Transparent ensure_pg. unfold ensure_pg. rewrite Hx. destruct (v_pg w); [reflexivity|contradiction]. }
+  Opaque ensure_pg.
+  destruct (c_vdel (v_ctl w)); [inversion H; auto|].
+  destruct (c_queue (v_ctl w)) eqn:Eq; cbn [negb] in H; [|inversion H; subst; rewrite Eq; auto].
+  destruct (phase_beq (st_phase (v_st w)) PhNone); cbn [andb] in H.
+  - destruct (fails_status F 0); [inversion H; subst; rewrite Eq; auto|].
+    rewrite (E (write w _)) in H by reflexivity. cbv zeta in H.
+    repeat match type of H with context [if ?c then _ else _] => destruct c end;
+      inversion H; subst; cbn; rewrite ?Eq; auto.
+  - rewrite (E w) in H by reflexivity. cbv zeta in H.
+    repeat match type of H with context [if ?c then _ else _] => destruct c end;
+      inversion H; subst; cbn; rewrite ?Eq; auto.
+Qed.
+
+(* ... and the RETRIED reconcile itself (second audit C06-N1: the theorem above concludes about the pure
+   pass; with a lister PodGroup that is ahead of the API server's the retry would do nothing).  If the
+   API server's PodGroup is the admitted one the lister showed, the job there has a phase and no deletion
+   timestamp: after crash, restart and deliveries in any order, a sync request that meets no fault
+   succeeds and leaves exactly the pods of the undisturbed sync *)
+Theorem crash_restart_retry : forall w u F w1 e1 wr1 order u' w3 e3 wr3,
+  sync_job w u F = (w1, e1, wr1) ->
+  c_vdel (v_ctl w) = false -> c_wdel (v_ctl w) = false -> c_queue (v_ctl w) = true ->
+  pg_admitted (v_pg w) = true -> w_pg w = v_pg w ->
+  st_phase (v_st w) <> PhNone -> st_phase (w_st w1) <> PhNone ->
+  v_pods w = w_pods w -> v_spec w = w_spec w ->
+  NoDup (map t_name (s_tasks (v_spec w))) -> NoDup (pod_ids (w_pods w)) ->
+  In order delivery_orders ->
+  sync_job (run w1 (ORestart :: order)) u' [] = (w3, e3, wr3) ->
+  e3 = false /\
+  forall t i, find_pod t i (w_pods w3) = find_pod t i (pass true (v_spec w) (w_pods w)).
+Proof.
+  intros w u F w1 e1 wr1 order u' w3 e3 wr3 H Hdel Hwdel Hq Hpg Hpgeq Hph Hph1 Hfresh Hspec Hts Hnd Hin H3.
+  destruct (crash_restart_world w u F w1 e1 wr1 order H Hdel Hq Hpg Hph Hfresh Hspec Hts Hnd Hin) as (_ & _ & _ & Hconv).
+  cbv zeta in Hconv.
+  assert (Hne : v_pg w <> None) by (intros E; rewrite E in Hpg; discriminate).
+  destruct (sync_job_keeps _ _ _ _ _ _ H Hne) as (Kd & Kq & Kg).
+  destruct (sync_job_pods _ _ _ _ _ _ H Hdel Hq Hpg Hph) as [Hp _].
+  rewrite (restart_any_delivery_order w1 order Hin) in H3, Hconv. unfold synced in H3, Hconv.
+  cbn [v_spec v_pods] in Hconv.
+  assert (Hnd1 : NoDup (pod_ids (w_pods w1))) by (rewrite Hp; apply sync_pods_nodup; exact Hnd).
+  match type of H3 with sync_job ?W _ _ = _ => set (w2 := W) in * end.
+  assert (P1 : c_vdel (v_ctl w2) = false) by (cbn; congruence).
+  assert (P2 : c_queue (v_ctl w2) = true) by (cbn; congruence).
+  assert (P3 : pg_admitted (v_pg w2) = true) by (cbn; congruence).
+  assert (P4 : st_phase (v_st w2) <> PhNone) by exact Hph1.
+  assert (P5 : v_pods w2 = w_pods w2) by reflexivity.
+  assert (P6 : NoDup (pod_ids (w_pods w2))) by exact Hnd1.
+  destruct (sync_job_exact_pods w2 u' w3 e3 wr3 H3 P1 P2 P3 P4 P5 P6) as [He Hf].
+  split; [exact He|]. intros t i. rewrite <- Hconv.
+  cbn [v_spec w_pods] in Hf. rewrite Hf.
+  destruct (sync_exact_pods true (w_spec w1) (w_pods w1) Hnd1) as [_ Hfind]. rewrite Hfind. reflexivity.
+Qed.
+
 (* non-vacuity: an interrupted sync, restart with the pods delivered before the job *)
 Example crash_restart_world_example :
   let w := init_world ex_spec (mkStatus PhRunning 0 0 2 c0 0 [] false false) ex_pods (Some PgRunning) in
@@ -915,4 +975,51 @@ Proof.
   destruct (pg_eq_dec (pg_update g sp xs jp) g) as [E|_]; [contradiction|].
   destruct api; [|discriminate]. inversion H; subst. eexists; split; [reflexivity|].
   apply (podgroup_mirrors_spec sp xs jp Hnd).
+Qed.
+
+(* non-vacuity of crash_restart_retry, and why it needs the API server's PodGroup: the same crash with a
+   lister PodGroup (Running) that is ahead of the API server's (Pending): after the restart the retried
+   sync succeeds and creates / deletes nothing (the reviewer's counterexample to reading the pass-level
+   theorem as a statement about the retry) *)
+Example crash_restart_retry_example :
+  let st := mkStatus PhRunning 0 0 2 c0 0 [] false false in
+  let w := init_world ex_spec st ex_pods (Some PgRunning) in
+  let wbad := mkWorld ex_spec ex_spec st st ex_pods ex_pods (Some PgPending) (Some PgRunning) (init_ctl true) in
+  (exists w1 w3 wr3, sync_job w URunningSync [FCreate 1 0; FDelete 1 2] = (w1, true, false) /\
+     st_phase (w_st w1) <> PhNone /\
+     sync_job (run w1 [ORestart; OSyncPods; OSyncJob; OSyncPg]) URunningSync [] = (w3, false, wr3) /\
+     w_pods w3 = pass true ex_spec ex_pods) /\
+  (exists w1 w3 wr3, sync_job wbad URunningSync [FCreate 1 0; FDelete 1 2] = (w1, true, false) /\
+     sync_job (run w1 [ORestart; OSyncPods; OSyncJob; OSyncPg]) URunningSync [] = (w3, false, wr3) /\
+     w_pods w3 = w_pods w1 /\ w_pods w3 <> pass true ex_spec ex_pods).
+Proof.
+  cbv zeta. split.
+  - do 3 eexists. split; [vm_compute; reflexivity|]. split; [vm_compute; discriminate|].
+    split; vm_compute; reflexivity.
+  - do 3 eexists. split; [vm_compute; reflexivity|]. split; [vm_compute; reflexivity|].
+    split; [vm_compute; reflexivity|vm_compute; discriminate].
+Qed.
+
+(* the executable guard of law 206 gives the hypothesis of the amount theorems (second audit N5) *)
+Lemma well_formed_ptask_ok : forall sp xs, well_formed sp = true -> Forall ptask_ok (ptasks sp xs).
+Proof.
+  intros sp xs H. unfold well_formed in H. apply andb_true_iff in H. destruct H as [H _].
+  apply andb_true_iff in H. destruct H as [H _]. rewrite forallb_forall in H.
+  unfold ptasks. apply Forall_forall. intros p Hp. apply in_map_iff in Hp. destruct Hp as ([t x] & <- & Hin).
+  apply in_combine_l in Hin. specialize (H t Hin). apply andb_true_iff in H. destruct H as [H1 H2].
+  unfold ptask_ok, pt_replicas, pt_min. cbn. apply Z.leb_le in H1. split; [exact H1|].
+  destruct (t_min t); [|exact I]. apply andb_true_iff in H2. destruct H2 as [A B].
+  apply Z.leb_le in A, B. lia.
+Qed.
+
+Theorem law_minres_amount_wf : forall sp xs got,
+  well_formed sp = true -> law_minres sp xs got = true ->
+  exists o, Permutation o (ptasks sp xs) /\ desc_prio o = true /\
+    got = if s_min sp <? total_min (ptasks sp xs) then rsum (greedy (map pt_replicas o) (s_min sp)) o
+          else let own := greedy (map own_min o) (s_min sp) in
+               radd (rsum own o) (rsum (greedy (map spare o) (s_min sp - zsum own)) o).
+Proof.
+  intros sp xs got Hw H. apply law_minres_amount; auto; [apply well_formed_ptask_ok; exact Hw|].
+  unfold well_formed in Hw. apply andb_true_iff in Hw. destruct Hw as [Hw _].
+  apply andb_true_iff in Hw. destruct Hw as [_ Hw]. apply Z.leb_le in Hw. exact Hw.
 Qed.
